@@ -79,11 +79,15 @@ def _z3_bin():
 
 
 def _worker(job):
-    """job = (name, smt2 text, expect, timeout_s, use_cvc5[, solvers]).  z3 and cvc5 run side by side as subprocesses (a hard
-    wall-clock limit is enforced by killing them); the first definitive answer that matches the expectation wins,
-    an answer that contradicts it waits for the other solver (cross-check)."""
+    """job = (name, smt2 text, expect, timeout_s, use_cvc5[, solvers]).
+
+    z3 5.1 (default configuration), z3 5.1 with auto_config=false ('z3b') and cvc5 run side by side as subprocesses (a hard
+    wall-clock limit is enforced by killing them).  z3 was seen to answer `unsat` on satisfiable sequence + quantifier
+    problems (both 5.1 and 4.8.12, reproducibly; `auto_config=false` and cvc5 answered correctly), therefore an `unsat`
+    counts only when cvc5 gives it, or when BOTH z3 configurations give it and no solver says `sat`.  A `sat` next to a
+    cvc5 `unsat` is a disagreement (checker fault), never a verdict."""
     name, txt, expect, timeout_s, use_cvc5 = job[:5]
-    solvers = job[5] if len(job) > 5 else ('z3', 'cvc5')
+    solvers = job[5] if len(job) > 5 else ('z3', 'z3b', 'cvc5')
     t0 = time.time()
     res = {'name': name, 'z3': None, 'cvc5': None, 'verdict': 'unknown', 'by': None, 'time': 0.0, 'detail': ''}
     tmpdir = os.environ.get('PYVC_TMP', None)
@@ -95,6 +99,8 @@ def _worker(job):
     try:
         if 'z3' in solvers:
             procs['z3'] = subprocess.Popen([_z3_bin(), f'-T:{int(timeout_s)}', f.name], stdout=subprocess.PIPE, stderr=subprocess.PIPE, text=True)
+        if 'z3b' in solvers:
+            procs['z3b'] = subprocess.Popen([_z3_bin(), f'-T:{int(timeout_s)}', 'auto_config=false', f.name], stdout=subprocess.PIPE, stderr=subprocess.PIPE, text=True)
         if 'z3old' in solvers and os.path.exists('/usr/bin/z3'):
             procs['z3old'] = subprocess.Popen(['/usr/bin/z3', f'-T:{int(timeout_s)}', f.name], stdout=subprocess.PIPE, stderr=subprocess.PIPE, text=True)
         if use_cvc5 and 'cvc5' in solvers:
@@ -106,6 +112,26 @@ def _worker(job):
                 pass
         answers = {}
         deadline = t0 + timeout_s + 2
+
+        agreed = {}
+
+        def settled():
+            if any(a == 'sat' for a in answers.values()) and expect == 'sat':
+                return True
+            if expect == 'unsat':
+                if answers.get('cvc5') == 'unsat' and not any(a == 'sat' for a in answers.values()):
+                    return True
+                if answers.get('z3') == 'unsat' and answers.get('z3b') == 'unsat':
+                    if 'cvc5' in answers or 'cvc5' not in procs:
+                        return True
+                    # both z3 configurations agree: cvc5 gets a short grace period to object
+                    agreed.setdefault('t', time.time())
+                    if time.time() - agreed['t'] > min(3.0, timeout_s / 3.0):
+                        return True
+                if any(a == 'sat' for a in answers.values()) and ('cvc5' in answers or 'cvc5' not in procs):
+                    return True
+            return False
+
         while procs and time.time() < deadline:
             for nm, p in list(procs.items()):
                 rc = p.poll()
@@ -116,9 +142,9 @@ def _worker(job):
                 head = lines[0].strip() if lines else ''
                 answers[nm] = head if head in ('sat', 'unsat') else 'unknown'
                 if answers[nm] == 'unknown':
-                    res['detail'] += f'{nm}: {(out + err).strip()[-160:]}; '
+                    res['detail'] += f'{nm}: {(out + err).strip()[-120:]}; '
                 del procs[nm]
-            if any(a == expect for a in answers.values()):
+            if settled():
                 break
             if procs:
                 time.sleep(0.02)
@@ -129,15 +155,29 @@ def _worker(job):
             res['detail'] += f'{nm}: timeout; '
         res['z3'] = answers.get('z3')
         res['cvc5'] = answers.get('cvc5')
-        definite = {nm: a for nm, a in answers.items() if a in ('sat', 'unsat')}
         res['answers'] = answers
-        if len(set(definite.values())) > 1:
+        sats = sorted(nm for nm, a in answers.items() if a == 'sat')
+        unsats = sorted(nm for nm, a in answers.items() if a == 'unsat')
+        zfam = [nm for nm in ('z3', 'z3b') if nm in solvers]
+        if sats and 'cvc5' in unsats or ('cvc5' in sats and unsats):
             res['verdict'] = 'disagree'
             res['detail'] = ' '.join(f'{k_}={v_}' for k_, v_ in answers.items())
-        elif definite:
-            nm = [k_ for k_ in ('z3', 'cvc5', 'z3old') if k_ in definite][0]
-            res['verdict'] = definite[nm]
-            res['by'] = nm
+        elif sats:
+            res['verdict'] = 'sat'
+            res['by'] = sats[0]
+            if unsats:
+                res['detail'] += f'z3 configurations disagree ({answers}); the sat answer is taken (an unsat needs cvc5 or both configurations); '
+        elif 'cvc5' in unsats:
+            res['verdict'] = 'unsat'
+            res['by'] = 'cvc5' + ('+z3' if ('z3' in unsats or 'z3b' in unsats) else '')
+        elif unsats and all(nm in unsats for nm in zfam) and len(zfam) >= (2 if 'z3b' in solvers or 'z3' not in solvers else 1):
+            res['verdict'] = 'unsat'
+            res['by'] = '+'.join(unsats)
+        elif unsats and set(solvers) <= {'z3old', 'cvc5'}:
+            res['verdict'] = 'unsat'
+            res['by'] = '+'.join(unsats)
+        elif unsats:
+            res['detail'] += f'unconfirmed unsat by {unsats} only (answers {answers}); '
     finally:
         for p_ in files:
             try:
@@ -174,8 +214,8 @@ def discharge(obligations, timeout_s=10, procs=None, use_cvc5=True):
         ob.cover_key = key
         if key not in groups:
             groups[key] = to_smt2(ob.hyps, z3.BoolVal(True), 'sat')
-    cover_jobs = [(f'cover:{k_}', txt, 'sat', min(timeout_s, 5), False, ('z3',)) for k_, txt in groups.items()]
-    procs = procs or min(16, max(1, len(jobs)))
+    cover_jobs = [(f'cover:{k_}', txt, 'sat', min(timeout_s, 5), False, ('z3', 'z3b')) for k_, txt in groups.items()]
+    procs = procs or min(8, max(1, len(jobs)))      # three solver processes per job
     ctx = mp.get_context('fork')
     covers = {}
     with ctx.Pool(procs) as pool:
@@ -184,14 +224,45 @@ def discharge(obligations, timeout_s=10, procs=None, use_cvc5=True):
                 covers[res['name'][6:]] = res
             else:
                 by_name[res['name']].result = res
+        # an undecided conjunction is retried conjunct by conjunct (each conjunct under the same hypotheses):
+        # all conjuncts unsat -> discharged; a refuted conjunct -> refuted
+        split_jobs = []
+        split_of = {}
+        for ob in obligations:
+            r = getattr(ob, 'result', None)
+            if r and ob.expect == 'unsat' and r.get('verdict') == 'unknown' and z3.is_and(ob.goal) and len(ob.goal.children()) > 1:
+                parts = ob.goal.children()
+                split_of[ob.name] = {'n': len(parts), 'res': {}}
+                for i_, p_ in enumerate(parts):
+                    try:
+                        split_jobs.append((f'split:{i_}:{ob.name}', to_smt2(ob.hyps, p_, 'unsat'), 'unsat', timeout_s, use_cvc5))
+                    except Exception:
+                        split_of.pop(ob.name, None)
+                        break
+        split_jobs = [j for j in split_jobs if j[0].split(':', 2)[2] in split_of]
+        for res in pool.imap_unordered(_worker, split_jobs, chunksize=1):
+            _, i_, nm = res['name'].split(':', 2)
+            split_of[nm]['res'][int(i_)] = res
+        for nm, sp in split_of.items():
+            rs = [sp['res'].get(i_) for i_ in range(sp['n'])]
+            ob = by_name[nm]
+            tm = ob.result.get('time', 0.0) + sum((r_ or {}).get('time', 0.0) for r_ in rs)
+            if all(r_ and r_['verdict'] == 'unsat' for r_ in rs):
+                ob.result = {'name': nm, 'verdict': 'unsat', 'by': 'split:' + '+'.join(sorted({str(r_.get('by')) for r_ in rs})), 'time': tm,
+                             'detail': f'conjunction of {sp["n"]} discharged conjunct by conjunct'}
+            elif any(r_ and r_['verdict'] == 'sat' for r_ in rs):
+                bad = [i_ for i_, r_ in enumerate(rs) if r_ and r_['verdict'] == 'sat']
+                ob.result = {'name': nm, 'verdict': 'sat', 'by': rs[bad[0]].get('by'), 'time': tm, 'detail': f'conjunct {bad} refuted'}
+            else:
+                ob.result['time'] = tm
         # second opinion where z3 alone said unsat on a path whose hypotheses z3 itself calls inconsistent
         redo = []
         for ob in obligations:
             r = getattr(ob, 'result', None)
             c = covers.get(getattr(ob, 'cover_key', None))
-            if r and c and ob.expect == 'unsat' and r.get('verdict') == 'unsat' and r.get('by') == 'z3' and c.get('verdict') == 'unsat':
+            if r and c and ob.expect == 'unsat' and r.get('verdict') == 'unsat' and 'cvc5' not in str(r.get('by')) and c.get('verdict') == 'unsat':
                 redo.append((ob.name, ob.smt2, ob.expect, timeout_s, True, ('cvc5', 'z3old')))
-            elif r and ob.expect == 'sat' and r.get('verdict') == 'unsat' and r.get('by') == 'z3':
+            elif r and ob.expect == 'sat' and r.get('verdict') == 'unsat' and 'cvc5' not in str(r.get('by')):
                 # a canary / cover "refuted" by z3 alone is not conclusive
                 redo.append((ob.name, ob.smt2, ob.expect, timeout_s, True, ('cvc5', 'z3old')))
         for res in pool.imap_unordered(_worker, redo, chunksize=1):
